@@ -34,7 +34,7 @@ struct SwapSim {
     const Plan &p; Result &r; Net net;
     secp256k1_context *ctx = nullptr;
     uint64_t inseed = 0, draw = 0;
-    int k = 1;
+    int k = 1; bool bob_static = false;
     struct S {
         uint8_t x[32], y[32], msg[32]; secp256k1_pubkey X, Y; uint8_t X33[33], Y33[33]; ref::Pt Xpt;
         // Alice
@@ -105,7 +105,7 @@ struct SwapSim {
         if (m.bytes.size() != 162) { r.probe("adaptor_wrong_length_dropped"); return; }
         Buf in(m.bytes.data(), 162);
         MonMark mk = mon_mark();
-        int v = L01(secp256k1_ecdsa_adaptor_verify(ctx, in.p(), &w.X, w.msg, &w.Y));
+        int v = L01(secp256k1_ecdsa_adaptor_verify(frugal_ctx(bob_static, ctx, "secp256k1_ecdsa_adaptor_verify"), in.p(), &w.X, w.msg, &w.Y));
         r.cmp();
         if (!mon_quiet_since(mk)) { r.violate("C14", "callback", "secp256k1_ecdsa_adaptor_verify", "callback on received bytes: " + g_mon.last_illegal); return; }
         // genuine: the bytes are an adaptor signature Alice made for exactly this (X, msg, Y) - possibly in a twin swap with identical parameters
@@ -121,14 +121,14 @@ struct SwapSim {
         if (kf) { memset(dk, (kf->arg(1) & 1) ? 0xff : 0x00, 32); erased = true; r.fault("key_record_erased"); }
         secp256k1_ecdsa_signature sig; uint8_t sb[64];
         mk = mon_mark();
-        int d = L01(secp256k1_ecdsa_adaptor_decrypt(ctx, &sig, dk, in.p()));
+        int d = L01(secp256k1_ecdsa_adaptor_decrypt(frugal_ctx(bob_static, ctx, "secp256k1_ecdsa_adaptor_decrypt"), &sig, dk, in.p()));
         L01(secp256k1_ecdsa_signature_serialize_compact(ctx, sb, &sig));
         r.cmp();
         if (!mon_quiet_since(mk)) { r.violate("C14", "callback", "secp256k1_ecdsa_adaptor_decrypt", "callback"); return; }
         if ((d != 0) == erased) { r.violate("C14", "decrypt_result", "secp256k1_ecdsa_adaptor_decrypt", std::string("decrypt returned ") + std::to_string(d) + (erased ? " with an invalid decryption key" : " with the right key")); return; }
         if (!d) { bool z = true; for (int i = 0; i < 64; i++) if (sb[i]) z = false; if (!z) { r.violate("C14", "decrypt_not_zeroed", "secp256k1_ecdsa_adaptor_decrypt", "failed decrypt left a non-zero signature"); return; } r.probe("decrypt_failed_zeroed"); return; }
         // the decrypted signature is a valid low-S ECDSA signature for Alice's key (library and model)
-        int lv = L01(secp256k1_ecdsa_verify(ctx, &sig, w.msg, &w.X));
+        int lv = L01(secp256k1_ecdsa_verify(frugal_ctx(bob_static, ctx, "secp256k1_ecdsa_verify"), &sig, w.msg, &w.X));
         bool mv = ref::ecdsa_verify(w.Xpt, w.msg, sb, sb + 32);
         r.cmp();
         if (!lv || !mv) { r.violate("C14", "decrypted_invalid", "secp256k1_ecdsa_adaptor_decrypt", "decrypted signature is not a valid low-S ECDSA signature (library " + std::to_string(lv) + ", model " + std::to_string(mv) + ")"); return; }
@@ -166,6 +166,7 @@ struct SwapSim {
     void run() {
         inseed = (uint64_t)p.c("inseed");
         k = (int)std::max<int64_t>(1, std::min<int64_t>(4, p.c("swaps", 1)));
+        bob_static = p.c("bob_static"); if (bob_static) r.fault("bob_uses_static_context");
         ctx = L(secp256k1_context_create(SECP256K1_CONTEXT_NONE));
         if (p.c("rand_ctx")) { uint8_t s[32]; fresh32(s); (void)L(secp256k1_context_randomize(ctx, s)); }
         sw.resize(k);
@@ -224,7 +225,7 @@ static Plan swap_generate(uint64_t seed, int) {
     Plan p;
     p.cfg["inseed"] = (int64_t)(g.next() >> 1);
     int k = (int)g.range(1, 4);
-    p.cfg["swaps"] = k; p.cfg["rand_ctx"] = (int64_t)g.below(2);
+    p.cfg["swaps"] = k; p.cfg["rand_ctx"] = (int64_t)g.below(2); p.cfg["bob_static"] = g.chance(1, 3);
     for (int i = 0; i < k; i++) {
         if (g.chance(1, 3)) { Op o; o.k = "class"; o.a = {i, (int64_t)g.below(4), (int64_t)g.below(4)}; p.ops.push_back(o); }
         if (g.chance(1, 4)) { Op o; o.k = "noncefault"; o.a = {i, (int64_t)g.below(4), (int64_t)g.below(2), (int64_t)g.below(2)}; p.ops.push_back(o); }
